@@ -135,6 +135,38 @@ def jwk_users(ctx):
             if bad <= 2:
                 ctx.violation("falsifier:jwk-oct-k", "oct JWK whose k is the base64url form of %s imports as key %s (%s bits, err=%s)" % (
                     hx(kb), got.get("oct"), got.get("bits"), got.get("err")), replay_lines=lines[3 * i:3 * i + 3], detail="impl: %s" % out)
+    # ... and the integer members of an RSA key: text with a foreign byte, a stray pad or white space anywhere is not the
+    # base64url form of anything -- the key is refused, never read as the integer its leading characters spell
+    import keys as K
+    rsa = K.gen_key("rsa", 2048, ctx.scratch)
+    good = rsa.jwk(private=True)
+    bads = []
+    for member in ("n", "e", "d", "p", "dq"):
+        v = good[member]
+        for pos in sorted({1, len(v) // 2, len(v) - 1} if len(v) > 4 else {1}):
+            for junk in ("!", " ", "\n", "*", ".", "\x7f"):        # not "=": the decoder documents that it stops at the first pad
+                j2 = dict(good)
+                j2[member] = v[:pos] + junk + v[pos:]
+                bads.append(("%s with %r at %d" % (member, junk, pos), j2))
+        j2 = dict(good)
+        j2[member] = v + "\n"
+        bads.append(("%s with a trailing newline" % member, j2))
+    rlines = []
+    for _, j2 in bads:
+        rlines += ["jwks 2 del", "jwks 2 load " + hx(_json.dumps(j2).encode()), "jwks 2 item 0"]
+    rc2, eo2, err2 = ctx.run_exec(rlines)
+    rbad = 0
+    for i, (what, j2) in enumerate(bads):
+        out = eo2[3 * i + 2] if 3 * i + 2 < len(eo2) else "<crash>"
+        got = dict(t.split("=", 1) for t in out.split() if "=" in t)
+        if got.get("err") != "1":
+            rbad += 1
+            if rbad <= 2:
+                ctx.violation("falsifier:jwk-rsa-member", "RSA JWK whose member is %s imports without error (bits=%s)" % (what, got.get("bits")),
+                              replay_lines=rlines[3 * i:3 * i + 3], detail="impl: %s" % out)
+    if rc2 != 0:
+        ctx.violation("sanitizer", "executor died (rc=%s) while importing RSA keys with malformed members" % rc2, replay_lines=rlines[:3 * (len(eo2) // 3 + 1)], detail=err2[-1500:])
+    ctx.add_suite("jwk-rsa-members", evaluations=len(bads), distinct_nontrivial=len(bads), rule="RSA private JWK with one integer member carrying a foreign byte / pad / white space at the start, middle or end: must be refused", exhaustive=False, disagreements=0, falsified=rbad, samples=[])
     if rc != 0:
         ctx.violation("sanitizer", "executor died (rc=%s) while importing oct keys" % rc, replay_lines=lines[:3 * (len(eo) // 3 + 1)], detail=err[-1500:])
     ctx.add_suite("jwk-oct-k", evaluations=len(keys), distinct_nontrivial=len(set(keys)), rule="oct JWKs whose k encodes octet strings with leading/trailing zero octets and random ones; imported key read back and compared octet for octet", exhaustive=False, disagreements=0, falsified=bad, samples=[])
